@@ -253,12 +253,14 @@ pub mod multi {
         fn pick<'a>(&'a self, other: &'a u32) -> &'a u32;
         fn sl<'a>(&'a mut self, other: &'a [u8]) -> &'a [u8];
         fn st<'a>(&'a self, other: &str) -> &'a str;
+        fn slm<'a>(&'a mut self, other: &'a mut [u8]) -> usize;
     }
     pub struct I3(pub u32, pub [u8; 4]);
     impl M3 for I3 {
         fn pick<'a>(&'a self, other: &'a u32) -> &'a u32 { if *other > self.0 { other } else { &self.0 } }
         fn sl<'a>(&'a mut self, other: &'a [u8]) -> &'a [u8] { other }
         fn st<'a>(&'a self, other: &str) -> &'a str { "x" }
+        fn slm<'a>(&'a mut self, other: &'a mut [u8]) -> usize { other.len() }
     }
 
     /// unsafe / extern "C" / default-bodied methods
@@ -589,7 +591,7 @@ pub mod assoc {
 FIXED_EXPECT = [
     ("multi", "M1", ["first", "second", "third", "fourth", "fifth"]),
     ("multi", "M2", ["put", "get", "both"]),
-    ("multi", "M3", ["pick", "sl", "st"]),
+    ("multi", "M3", ["pick", "sl", "st", "slm"]),
     ("multi", "M4", ["raw", "cabi", "with_default"]),
     ("multi", "M5", ["kept", "kept2"]),
     ("multi", "M6", ["hold", "held"]),
